@@ -858,5 +858,140 @@ class Main(pipeline.Stream):
         return random_cases(random_programs(), 600, rng.randrange(1 << 30))
 
 
+class Chain(pipeline.Stream):
+    """oracle only (outside Model/Future.v, which has no registration made from inside a callback): a callback that registers a
+    follow-up callback on its own future while it is being notified -- 'exactly once per registration' covers that
+    registration too, and the notifying thread (the executing worker, or the late registrar) must come back.  Real threads, no
+    interleaving involved: every step is sequential except the bounded waits that detect a thread that never returns."""
+    name = "chain"
+    model_imports = "Future"
+    case_type = "unit"
+    check_fn = "(fun _ => true)"
+
+    def setup(self):
+        import jsonrpclib.threadpool as T
+        self.T = T
+
+    def gen(self, tier, rng):
+        return [{"when": w, "body": b, "depth": d, "pool": p}
+                for w in ("before", "after") for b in ("ret", "raise") for d in (1, 2, 3) for p in (False, True)]
+
+    def run_impl(self, case):
+        import threading
+        T = self.T
+        calls = []
+        fut_box = []
+        result_obj, exc_obj = object(), ValueError("task failed")
+
+        def make_cb(level):
+            def cb(result, exception, extra):
+                calls.append((level, result, exception, extra))
+                if level < case["depth"]:
+                    fut_box[0].set_callback(make_cb(level + 1), ("extra", level + 1))
+            return cb
+
+        def body():
+            if case["body"] == "raise":
+                raise exc_obj
+            return result_obj
+
+        out = {"returned": {}, "next_task_ran": None}
+        pool = None
+        try:
+            if case["pool"]:
+                pool = T.ThreadPool(1, 1)
+                pool.start()
+                gate = threading.Event()
+                if case["when"] == "before":
+                    def gated():
+                        gate.wait(10)
+                        return body()
+                    fut = pool.enqueue(gated)
+                    fut_box.append(fut)
+                    fut.set_callback(make_cb(1), ("extra", 1))
+                    gate.set()
+                else:
+                    fut = pool.enqueue(body)
+                    fut_box.append(fut)
+                    try:
+                        fut.result(10)
+                    except Exception:      # noqa
+                        pass
+                    th = threading.Thread(target=lambda: fut.set_callback(make_cb(1), ("extra", 1)), daemon=True)
+                    th.start()
+                    th.join(10)
+                    out["returned"]["set_callback"] = not th.is_alive()
+                nxt = pool.enqueue(lambda: "next")
+                try:
+                    out["next_task_ran"] = nxt.result(10) == "next"
+                except Exception:          # noqa
+                    out["next_task_ran"] = False
+            else:
+                fut = T.FutureResult()
+                fut_box.append(fut)
+
+                def run_exec():
+                    try:
+                        fut.execute(body, None, None)
+                    except Exception:      # noqa
+                        pass
+                if case["when"] == "before":
+                    fut.set_callback(make_cb(1), ("extra", 1))
+                th = threading.Thread(target=run_exec, daemon=True)
+                th.start()
+                th.join(10)
+                out["returned"]["execute"] = not th.is_alive()
+                if case["when"] == "after":
+                    th2 = threading.Thread(target=lambda: fut.set_callback(make_cb(1), ("extra", 1)), daemon=True)
+                    th2.start()
+                    th2.join(10)
+                    out["returned"]["set_callback"] = not th2.is_alive()
+        finally:
+            if pool is not None:
+                th3 = threading.Thread(target=pool.stop, daemon=True)
+                th3.start()
+                th3.join(15)
+                out["returned"]["pool.stop"] = not th3.is_alive()
+        want = (None, exc_obj) if case["body"] == "raise" else (result_obj, None)
+        out["calls"] = [(lv, r is want[0], e is want[1], x) for (lv, r, e, x) in calls]
+        return out
+
+    def oracle(self, case, obs):
+        for what, ok in obs["returned"].items():
+            if not ok:
+                return ("C16:no-progress", "%s did not return within 10 s when a callback registers a follow-up callback on its own future" % what)
+        if obs["next_task_ran"] is False:
+            return ("C16:worker-progress-changed-by-callback", "the worker did not run the next task after notifying a chaining callback")
+        for level in range(1, case["depth"] + 1):
+            mine = [c for c in obs["calls"] if c[0] == level]
+            if len(mine) != 1:
+                return ("C16:callback-not-invoked" if not mine else "C16:callback-invoked-twice",
+                        "registration made %s (level %d) was invoked %d times" % (
+                            "by the caller" if level == 1 else "from inside callback %d" % (level - 1), level, len(mine)))
+            if mine[0][1:] != (True, True, ("extra", level)):
+                return ("C16:callback-wrong-arguments", "callback of level %d got %r" % (level, mine[0]))
+        return None
+
+    def encode(self, case, obs):
+        return None
+
+    def nontrivial(self, case, obs):
+        return True
+
+    def kind(self, case, obs):
+        return "chain / registered %s completion / %s / depth %d / %s" % (case["when"], case["body"], case["depth"],
+                                                                          "pool" if case["pool"] else "bare future")
+
+    def describe(self, case, obs):
+        return {"case": case, "returned": obs["returned"], "calls": [list(c[:3]) + [list(c[3])] for c in obs["calls"]],
+                "next_task_ran": obs["next_task_ran"]}
+
+    def to_replay(self, case):
+        return dict(case)
+
+    def from_replay(self, j):
+        return dict(j)
+
+
 def streams():
-    return [Main()]
+    return [Main(), Chain()]
